@@ -165,7 +165,7 @@ func init() {
 			"directed: the watcher is held at worker.wait.waited (all holders done, before it re-locks) and at worker.wait.stopping (about to close stop) while a new Do arrives. oracle (offline over stamps): instance intervals disjoint and active<=1; no instance has stop open after a holder's Do returned and closed before that holder called done; " +
 			"no Do called after an instance observed stop returns before that instance exits; every holder sees (bounded) an instance with open stop after its Do returned; every instance is stopped and exits once nobody holds it. " +
 			"early-return: instance functions that return on their own while holders are outstanding (a watcher goroutine keeps polling the stop channel it was given): still never two bodies at once, no stop channel closed while a holder that saw it open is outstanding, every stop channel closed once nobody holds it. " +
-			"non-trivial = more than one instance was started (the last done raced new Dos); distinct = distinct (holders, instances, directed site) signatures",
+			"tight-loop: 2-6 goroutines each calling Do(fn)() thousands of times with nothing in between (instances that linger 0-100us after stop): generations follow each other as fast as they can, several Dos queue behind each stopping instance; never two bodies at once, every instance stopped and gone at the end. non-trivial = more than one instance was started (the last done raced new Dos); distinct = distinct (holders, instances, directed site) signatures",
 		Assumptions: []string{"instance functions return only after observing stop closed (so an instance cannot end while held by its own choice)"},
 		Families: []core.Family{
 			{Name: "random", N: core.TierN(4000, 160000), Batch: 100, Run: c17Random},
@@ -173,6 +173,7 @@ func init() {
 			{Name: "hammer", N: core.TierN(16, 800), Batch: 2, Run: c17Hammer},
 			{Name: "instant-release", N: core.TierN(60, 2400), Batch: 20, Run: c17InstantRelease},
 			{Name: "early-return", N: core.TierN(200, 8000), Batch: 50, Run: c17EarlyReturn},
+			{Name: "tight-loop", N: core.TierN(24, 960), Batch: 4, Run: c17TightLoop},
 		},
 	})
 }
@@ -494,4 +495,44 @@ func c17InstantRelease(c *core.Ctx) {
 		c.Nontrivial()
 	}
 	c.Sig("instant", g, len(r.instances) > 1)
+}
+
+// c17TightLoop: Do(fn)() in a tight loop from several goroutines: whole generations (start, hold, release, stop,
+// exit) go by while other Dos are still queued behind an earlier stopping instance.
+func c17TightLoop(c *core.Ctx) {
+	r := &w17Run{}
+	g := 2 + c.Rng.IntN(5)
+	cycles := 1500
+	if c.Thorough() {
+		cycles = 4000
+	}
+	lingers := []time.Duration{0, 0, 20 * time.Microsecond, 100 * time.Microsecond}
+	var wg sync.WaitGroup
+	for h := 0; h < g; h++ {
+		seed := c.Rng.Uint64()
+		wg.Add(1)
+		go func() {
+			defer wg.Done()
+			rng := newRand(seed)
+			for i := 0; i < cycles; i++ {
+				done := r.w.Do(r.body(lingers[rng.IntN(len(lingers))]))
+				if rng.IntN(8) == 0 {
+					spin(rng.IntN(30))
+				}
+				done()
+			}
+		}()
+	}
+	if !core.AwaitDone(core.Go(wg.Wait), 60000) {
+		c.Violate("do-blocked", "tight Do(fn)() loops did not finish (%d goroutines x %d)", g, cycles)
+		c.SetDump(core.DumpAll())
+		return
+	}
+	r.check(c)
+	c.Op("do", g*cycles)
+	c.Op("instance", len(r.instances))
+	if len(r.instances) > 1 {
+		c.Nontrivial()
+	}
+	c.Sig("tight", g, len(r.instances) > 1)
 }
